@@ -3,13 +3,13 @@ from vlib import oracles, reharness
 from vlib.harness import Harness, register
 from harnesses.c01_documents import OUT, STUBS, SYM, _fns
 
-PLANS_Q = ["staged_monitor", "flymon", "scan2", "cleanup", "double_stage"]
+PLANS_Q = ["staged_monitor", "flymon", "scan2", "cleanup", "double_stage", "status_stage"]
 PLANS_T = PLANS_Q + ["count2", "bare", "nested_runs", "grid2x2", "fly1", "rel_scan2"]
 register(Harness("c06_sweep", "C06", lambda P: reharness.make_sweep(P, oracles.c06_cleanup, plans=PLANS_Q if P["tier"] == "quick" else PLANS_T),
                  {"quick": dict(shards=16, budget_s=300, per_path_s=30), "thorough": dict(shards=48, budget_s=3000, per_path_s=30)},
                  goals=["paused", "resumed", "suspended", "interrupted"], functions=_fns, mode="schedule", symbolic=SYM, out_of_bound=OUT + "; devices staged more than once per call",
                  stubs=STUBS, require_exhaustive=True))
-register(Harness("c06_faults", "C06", lambda P: reharness.make_sweep(P, oracles.c06_cleanup, plans=["staged_monitor", "flymon", "scan2", "double_stage"] if P["tier"] == "quick" else PLANS_T + ["double_stage"],
+register(Harness("c06_faults", "C06", lambda P: reharness.make_sweep(P, oracles.c06_cleanup, plans=["staged_monitor", "flymon", "scan2", "double_stage", "status_stage"] if P["tier"] == "quick" else PLANS_T + ["double_stage"],
                                                                        kinds=["pause"] if P["tier"] == "quick" else ["pause", "suspend", "halt"],
                                                                        decisions=["resume"] if P["tier"] == "quick" else ["resume", "halt"], faults=True),
                  {"quick": dict(shards=16, budget_s=300, per_path_s=30), "thorough": dict(shards=64, budget_s=3000, per_path_s=30)},
